@@ -395,10 +395,11 @@ func run(sc *scenario, dir string, tw *trace.Writer) result {
 	}
 	desync.VerifHook = s.Hook
 	var aerr error
+	var xstats *desync.ExtractStats
 	act := map[string]desync.InvalidSeedAction{"bail": desync.InvalidSeedActionBailOut, "skip": desync.InvalidSeedActionSkip, "regen": desync.InvalidSeedActionRegenerate}[sc.Act]
 	log, herr := s.Run(func() {
 		s.Name("main")
-		_, aerr = desync.AssembleFile(ctx, target, idx, gs, seeds, desync.AssembleOptions{N: sc.N, InvalidSeedAction: act})
+		xstats, aerr = desync.AssembleFile(ctx, target, idx, gs, seeds, desync.AssembleOptions{N: sc.N, InvalidSeedAction: act})
 		s.Hook("result")
 		s.Leave()
 	})
@@ -436,6 +437,7 @@ func run(sc *scenario, dir string, tw *trace.Writer) result {
 		actuals = append(actuals, nn(sp.Actual))
 		aliases = append(aliases, seedFiles[i] == target)
 	}
+	resetLine := tw.N + 1
 	tw.Emit(trace.M("ev", "reset", "scen", sc.Num, "idx", nn(sc.Idx), "prior", sc.Prior, "priort", priorT, "priorlen", len(prior),
 		"blank", prior == nil || len(prior) == 0, "claims", claims, "cstarts", cstarts, "actuals", actuals, "aliases", aliases, "act", sc.Act, "n", sc.N,
 		"clone", sc.Clone, "blocky", sc.Blocky, "missing", sc.Missing, "mutat", sc.MutAt, "cancel", sc.CancelAt, "length", len(blob),
@@ -521,6 +523,18 @@ func run(sc *scenario, dir string, tw *trace.Writer) result {
 	}
 	tw.Emit(trace.M("ev", "result", "g", "main", "res", rs, "t", ft, "len", len(fb), "equal", ferr == nil && bytes.Equal(fb, blob),
 		"storefail", gs.Fails, "clonecalls", cl, "errtext", errText(aerr)))
+	if xstats != nil { // judged by ExtractStats.tla (not part of C01)
+		var maxc uint64
+		for _, c := range idx.Chunks {
+			if c.Size > maxc {
+				maxc = c.Size
+			}
+		}
+		tw.Emit(trace.M("ev", "stats", "from", resetLine, "res", rs, "k", len(idx.Chunks), "length", len(blob), "nseeds", len(seeds), "maxchunk", maxc,
+			"started", xstats.Seeds > 0,
+			"rep", trace.M("total", xstats.ChunksTotal, "bytes", xstats.BytesTotal, "seeds", xstats.Seeds, "store", xstats.ChunksFromStore,
+				"inplace", xstats.ChunksInPlace, "fromseeds", xstats.ChunksFromSeeds, "copied", xstats.BytesCopied, "cloned", xstats.BytesCloned)))
+	}
 	return res
 }
 
